@@ -29,8 +29,12 @@ def png_from_token(rng, tok, pre=(), mid=(), post=(), simple=False):
     nrows = len(pg.row_layout(w, h, depth * pg.CHANNELS[ct], il))
     types = [0] if simple else [rng.randrange(5) for _ in range(nrows)]
     return pg.write_png(w, h, ct, depth, il, data, plte=plte, trns=trns, pre=pre, mid=mid, post=post,
-                        filter_types=types, idat_split=1 if simple else rng.choice([1, 1, 2, 3]),
+                        filter_types=types,
+                        idat_split=1 if simple else rng.choice([1, 1, 2, 3, 1, 2, -(8 * rng.choice([1, 2]) + rng.choice([1, 2, 4, 5, 7]))]),
                         level=rng.choice([1, 6, 9]))
+
+
+UNUSED_IS_BREAK = True
 
 
 class BadPng(Exception):
@@ -170,9 +174,21 @@ def run_pairs(rep, cases, family):
     rep.evaluations += len(cases.lines)
     for cid, m in cases.meta.items():
         a = vlib.canon(out[cid][0])
-        b = vlib.canon(rm.get(cid))
+        mr = rm.get(cid)
+        unused = 0
+        if mr and " #unused-deflate=" in mr:
+            mr, _, n = mr.partition(" #unused-deflate=")
+            unused = int(n)
+        b = vlib.canon(mr)
         if a != b:
             rep.corr_break(family, m["cmd"], out[cid][0], rm.get(cid))
+        elif unused and UNUSED_IS_BREAK:
+            # the implementation compressed streams (candidates x filters) that the model's pipeline never produces:
+            # the set of transformations actually tried differs from the model's even though this output agrees
+            rep.corr_break(family + ": work the model does not predict", m["cmd"],
+                           f"{unused} compressor call(s) with inputs the model never compresses", "no such candidate / trial")
+        if unused:
+            rep.count("unused-deflate-records", unused)
     return out
 
 
